@@ -65,6 +65,30 @@ func stagePaths(w *gal.Writer, r *gal.Rand) {
 		addCase(w, "PAbs", "filepath", map[string]any{"cwd": cwd, "s": s}, false, gal.Str(cwd), gal.Str(s), gal.Str(a))
 	}
 
+	// filepath.Rel, which the containment tests are built on since the fixes
+	relPairs := [][2]string{{"/r", "/r2/x"}, {"/r", "/r/x"}, {"/r", "/r"}, {"/", "/a"}, {"/a", "/"}, {"", ""}, {".", "x"}, {".", "../x"}, {"a", "."}, {"a/b", "."}, {"..", "."},
+		{".", ".."}, {"..", "../.."}, {"../..", ".."}, {"a", "/a"}, {"/a", "a"}, {"/r/", "/r/x"}, {"/a/b", "/a/bc"}, {"/a/b", "/a/b/..x"}, {"a", "a/..b"}, {"/a//b/../c", "/a/c/d"}}
+	for i := 0; i < scale(300, 4000); i++ {
+		b := gal.Pick(r, roots)
+		if r.Chance(1, 3) {
+			b = hostilePath(r)
+		}
+		t := hostilePath(r)
+		switch r.Intn(4) {
+		case 0:
+			t = filepath.Join(b, climbing(r))
+		case 1:
+			t = filepath.Join(b, hostilePath(r))
+		case 2:
+			t = climbing(r)
+		}
+		relPairs = append(relPairs, [2]string{b, t})
+	}
+	for _, bt := range relPairs {
+		out, err := filepath.Rel(bt[0], bt[1])
+		addCase(w, "PRel", "filepath", map[string]any{"base": bt[0], "targ": bt[1], "out": out, "err": errStr(err)}, false, gal.Str(bt[0]), gal.Str(bt[1]), optStr(out, err))
+	}
+
 	// ---- sanitizePath / sanitizeArchivePath ---------------------------------
 	type bp struct{ b, p string }
 	san := []bp{{"/r", "../r2/x"}, {"/r", "../r/x"}, {"/r", "x"}, {"/r", "../x"}, {"/r/", "../r2/x"}, {"/r", ""}, {"", ""}, {"", "x"}, {"/", "../x"},
